@@ -111,7 +111,7 @@ def seedtest(only: str | None, tier: str, jobs: int) -> int:
     try:
         for sid in sorted(os.listdir(root)):
             d = os.path.join(root, sid)
-            if not os.path.isdir(d) or (only and only not in sid):
+            if not os.path.isdir(d) or (only and not any(o and o in sid for o in only.split(','))):
                 continue
             meta = json.load(open(os.path.join(d, "meta.json")))
             prop = meta["property"]
